@@ -57,6 +57,11 @@ func makeURLKey(u *url.URL) string {
 		// would be shared by every scheme and host.
 		u = SpellOutOpaque(u)
 		if u.Opaque != "" {
+			if strings.EqualFold(u.Scheme, "http") || strings.EqualFold(u.Scheme, "https") {
+				// An http(s) request target that cannot be spelled out still belongs to
+				// its scheme and authority.
+				return strings.ToLower(u.Scheme) + "://" + asciiLower(u.Host) + "/%00opaque/" + u.Opaque
+			}
 			return u.Opaque
 		}
 	}
@@ -122,18 +127,26 @@ func SpellOutOpaque(u *url.URL) *url.URL {
 	if u.Opaque == "" || (!strings.EqualFold(u.Scheme, "http") && !strings.EqualFold(u.Scheme, "https")) {
 		return u
 	}
-	raw := u.Scheme + ":" + u.Opaque
-	if !strings.HasPrefix(u.Opaque, "//") {
-		raw = u.Scheme + "://" + u.Host + u.Opaque
-	}
+	ref := u.Opaque
 	if u.ForceQuery || u.RawQuery != "" {
-		raw += "?" + u.RawQuery
+		ref += "?" + u.RawQuery
 	}
-	v, err := url.Parse(raw)
-	if err != nil || v.Opaque != "" {
+	if strings.HasPrefix(u.Opaque, "//") {
+		if v, err := url.Parse(u.Scheme + ":" + ref); err == nil && v.Opaque == "" {
+			return v
+		}
 		return u
 	}
-	return v
+	// The path form: the authority is taken from the URL as it is (re-parsing its text
+	// fails for hosts such as "[fe80::1%eth0]").
+	p, err := url.Parse(ref)
+	if err != nil || p.Scheme != "" || p.Host != "" || p.Opaque != "" {
+		return u
+	}
+	v := *u
+	v.Opaque = ""
+	v.Path, v.RawPath, v.RawQuery, v.ForceQuery = p.Path, p.RawPath, p.RawQuery, p.ForceQuery
+	return &v
 }
 
 // removeDotSegments implements the remove_dot_segments algorithm of RFC 3986 §5.2.4
